@@ -389,6 +389,7 @@ impl Property for C14 {
                 for t in m.thermal_bridges.iter_mut() {
                     t.l = t.l.abs();
                 }
+                crate::gen::model::vary_outlines(&mut rng, &mut m, 0.15);
                 self.observe(&m, &format!("sane-generated#{}", case.index), "generated-closed-sane", obs, json!([]));
             }
         }
